@@ -767,10 +767,17 @@ class AdapterLookupBase:
 
     def changed(self, ignored=None):
         super().changed(None)
-        for r in self._required.keys():
+        # Lookups in other threads may be subscribing (adding to
+        # ``_required``) or, for verifying lookups, running this very
+        # method at the same time: work on a snapshot and tolerate having
+        # been beaten to an unsubscription.
+        for r in tuple(self._required):
             r = r()
             if r is not None:
-                r.unsubscribe(self)
+                try:
+                    r.unsubscribe(self)
+                except KeyError:
+                    pass
         self._required.clear()
 
     # Extendors
